@@ -51,10 +51,12 @@ mod verif_unix {
         (ok, n, kind_of(k))
     }
 
-    static BUF: [u8; 64] = [b'a'; 64];
+    static BUF: [u8; 131072] = [b'a'; 131072];
     fn any_str() -> &'static str {
         let len: usize = kani::any();
-        kani::assume(len <= 64);
+        kani::assume(len <= 131072);
+        // any length up to 128 KiB (beyond the largest UDP/Unix datagram): the bytes are never read by
+        // the code under test, only the pointer and the length travel to the stub
         unsafe { std::str::from_utf8_unchecked(&BUF[..len]) }
     }
 
@@ -62,7 +64,7 @@ mod verif_unix {
         unsafe { UnixDatagram::from_raw_fd(7) }
     }
 
-    //@H name=c13_unix_emit props=C13,C14,C20 bound="metric length 0..=64 bytes (the code passes pointer+length only)" fn=UnixMetricSink::emit :: unbuffered Unix emit = exactly one send_to of exactly the metric's bytes to the path given at construction; result and statistics follow the socket's answer
+    //@H name=c13_unix_emit props=C13,C14,C20 bound="metric length 0..=131072 bytes (the code passes pointer+length only)" fn=UnixMetricSink::emit :: unbuffered Unix emit = exactly one send_to of exactly the metric's bytes to the path given at construction; result and statistics follow the socket's answer
     #[kani::proof]
     #[kani::unwind(40)]
     #[kani::stub(std::os::unix::net::UnixDatagram::send_to, send_to_stub)]
@@ -91,7 +93,7 @@ mod verif_unix {
         std::mem::forget(r);
     }
 
-    //@H name=c13_unix_adapter_write props=C05,C06,C07,C13,C14,C20 bound="buffer length 0..=64 bytes (the code passes pointer+length only)" fn=UnixWriteAdapter::write :: the buffered sink's adapter is a datagram writer: one send_to per write, same bytes, configured path, all-or-nothing result through the statistics
+    //@H name=c13_unix_adapter_write props=C05,C06,C07,C13,C14,C20 bound="buffer length 0..=131072 bytes (the code passes pointer+length only)" fn=UnixWriteAdapter::write :: the buffered sink's adapter is a datagram writer: one send_to per write, same bytes, configured path, all-or-nothing result through the statistics
     #[kani::proof]
     #[kani::unwind(40)]
     #[kani::stub(std::os::unix::net::UnixDatagram::send_to, send_to_stub)]
@@ -155,21 +157,21 @@ mod verif_unix {
         Err(std::sync::TryLockError::WouldBlock)
     }
 
-    //@H name=c12_unix_emit_flush props=C06,C12,C13,C14,C20 bound="capacity 8, one 2-byte metric" fn=BufferedUnixMetricSink::emit,flush :: buffered Unix sink: emit == one write of the whole metric into the line writer (nothing sent); flush == ONE datagram metric+newline to the configured destination; flushing again sends nothing
+    //@H name=c12_unix_emit_flush props=C06,C12,C13,C14,C20 bound="capacity 8, one 3-byte metric" fn=BufferedUnixMetricSink::emit,flush :: buffered Unix sink: emit == one write of the whole metric into the line writer (nothing sent); flush == ONE datagram metric+newline to the configured destination; flushing again sends nothing
     #[kani::proof]
     #[kani::unwind(40)]
     #[kani::stub(std::os::unix::net::UnixDatagram::send_to, send_to_stub)]
     #[kani::stub(std::path::Path::canonicalize, canonicalize_stub)]
     fn c12_unix_emit_flush() {
         let s = ManuallyDrop::new(BufferedUnixMetricSink::with_capacity(GIVEN, fake_socket(), 8));
-        OUTCOME.store(4, Ordering::SeqCst); // the socket accepts: Ok(3)
-        let r = s.emit("ab");
-        assert!(matches!(r, Ok(2)), "[C06,C12] emit returns the metric's byte length");
+        OUTCOME.store(5, Ordering::SeqCst); // the socket accepts: Ok(4)
+        let r = s.emit(" b ");   // blanks at both ends: the sink does not trim or normalise the metric
+        assert!(matches!(r, Ok(3)), "[C06,C12] emit returns the metric's byte length");
         assert!(CALLS.load(Ordering::SeqCst) == 0, "[C19] a metric that fits is buffered, nothing is sent");
         assert!(s.flush().is_ok(), "[C06] flush succeeds when the socket accepts");
-        assert!(CALLS.load(Ordering::SeqCst) == 1 && LEN.load(Ordering::SeqCst) == 3, "[C06,C12,C13] flush sends what remains as ONE datagram: the metric followed by a single newline");
+        assert!(CALLS.load(Ordering::SeqCst) == 1 && LEN.load(Ordering::SeqCst) == 4, "[C06,C12,C13] flush sends what remains as ONE datagram: the whole metric (blanks included) followed by a single newline");
         assert!(PATH_OK.load(Ordering::SeqCst) == 1, "[C13] to the destination given at construction");
-        assert!(snapshot(&s.stats) == [3, 1, 0, 0], "[C14] the buffered sink's statistics count the datagram the socket accepted");
+        assert!(snapshot(&s.stats) == [4, 1, 0, 0], "[C14] the buffered sink's statistics count the datagram the socket accepted");
         assert!(s.flush().is_ok() && CALLS.load(Ordering::SeqCst) == 1, "[C06] flushing again sends nothing");
         kani::cover!(true, "end");
         std::mem::forget(r);
